@@ -126,3 +126,43 @@ def tiling(shift_of_j, width, j, count, top=32):
         return False, "the first field ends at bit %s, not at bit %d" % (sym.show(sym.add(s0, width)), top), None
     lowest = sym.subst(shift_of_j, {j: sym.sub(count, I(1))})
     return True, "fields [%s, +%s) for j < %s tile bits [%s, %d)" % (sym.show(shift_of_j), sym.show(width), sym.show(count), sym.show(lowest), top), lowest
+
+
+def normalize(t, env=None):
+    """rewrite every power-of-two factor of every monomial as the atom ("2^", exponent): terms that denote the same
+    value for power-of-two parameters get the same normal form"""
+    env = env or {}
+    if not isinstance(t, tuple) or not t:
+        return t
+    if t[0] in ("int", "sym", "var", "glob", "float", "str", "unk"):
+        e = pow2_exp(t, env) if t[0] != "int" or t[1] > 1 else None
+        if e is not None and t[0] != "int":
+            return ("2^", e)
+        return t
+    e = pow2_exp(t, env)
+    if e is not None and t[0] != "int":
+        return ("2^", e)
+    if t[0] == "poly":
+        out = ZERO
+        for mono, c in t[1]:
+            expo = ZERO
+            rest = I(c)
+            for a in mono:
+                ea = pow2_exp(a, env)
+                if ea is not None:
+                    expo = sym.add(expo, ea)
+                else:
+                    rest = sym.mul(rest, normalize(a, env))
+            cv = sym.const_value(rest)
+            if cv is not None and cv > 0 and _ilog2(cv) is not None and (expo != ZERO or _ilog2(cv) > 0):
+                expo = sym.add(expo, I(_ilog2(cv)))
+                rest = I(1)
+            if expo != ZERO:
+                rest = sym.mul(rest, ("2^", expo))
+            out = sym.add(out, rest)
+        return out
+    if t[0] == "op":
+        return ("op", t[1], normalize(t[2], env), normalize(t[3], env))
+    if t[0] == "cast":
+        return normalize(t[2], env)
+    return t
